@@ -17,6 +17,7 @@ import (
 	"fmt"
 	"io"
 	"net"
+	"os"
 	"runtime"
 	"strconv"
 	"strings"
@@ -27,6 +28,7 @@ import (
 	v2 "mosn.io/mosn/pkg/config/v2"
 	"mosn.io/mosn/pkg/configmanager"
 	proxyfilter "mosn.io/mosn/pkg/filter/network/proxy"
+	"mosn.io/mosn/pkg/log"
 	"mosn.io/mosn/pkg/network"
 	"mosn.io/mosn/pkg/router"
 	_ "mosn.io/mosn/pkg/stream/http"
@@ -155,17 +157,15 @@ var h1bW *h1bWorld
 func h1bSetup() *h1bWorld {
 	h1bOnce.Do(func() {
 		configmanager.ParseServerConfig(&v2.ServerConfig{})
+		h1bQuiet()
 		w := &h1bWorld{next: make(chan h1bUpPlan, 1), seen: make(chan *h1bMsg, 4)}
 		var err error
 		if w.up, err = net.Listen("tcp", "127.0.0.1:0"); err != nil {
 			panic(err)
 		}
-		deadLn, err := net.Listen("tcp", "127.0.0.1:0")
-		if err != nil {
-			panic(err)
-		}
-		dead := deadLn.Addr().String()
-		deadLn.Close()
+		// a port nobody listens on and that is never handed out as an ephemeral port (a closed ephemeral listener's port
+		// can be taken over by a parallel harness process)
+		dead := "127.0.0.1:1"
 		cluster.NewClusterManagerSingleton(nil, nil, nil)
 		cm := cluster.GetClusterMngAdapterInstance()
 		for _, cl := range []struct{ name, addr string }{{h1bCluster, w.up.Addr().String()}, {h1bDead, dead}} {
@@ -449,7 +449,20 @@ func h1bGen(r *hx.Rng, n int) (int, []h1bEx) {
 	return nconn, plan
 }
 
+// h1bQuiet: MOSN logs every local reply at WARN level on stderr; the check drains a harness's output only when it
+// collects that harness, so a chatty harness blocks on a full pipe
+func h1bQuiet() {
+	if os.Getenv("C02_DEBUG") != "" {
+		return
+	}
+	log.DefaultLogger.SetLogLevel(log.FATAL)
+	log.StartLogger.SetLogLevel(log.FATAL)
+	log.Proxy.SetLogLevel(log.FATAL)
+}
+
 func h1bCases(c *hx.Ctx) {
+	h1bSetup()
+	h1bQuiet()
 	// one P: the goroutine that gives the buffers back and the one that takes them next share sync.Pool's per-P cache,
 	// so a finished exchange's buffers are what the next exchange gets
 	old := runtime.GOMAXPROCS(1)
